@@ -111,7 +111,7 @@ fn run(args: &Args, o: &mut Out) {
         "regs" => regs::run_regs(&mut o, args.seed, args.n),
         "ctx" => {
             cpu::reset_regs();
-            regs::run_ctx(&mut o, &mut gen::Rng::new(args.seed ^ 0xc7c7))
+            regs::run_ctx(&mut o, &mut gen::Rng::new(args.seed ^ 0xc7c7), &args.prop)
         }
         "ports" => cpufam::run_ports(&mut o, args.seed, args.n),
         "intr" => cpufam::run_intr(&mut o, args.seed, args.n),
